@@ -10,7 +10,110 @@ def pipe(ctx, verdict, cases, name="centroid"):
     return obs
 
 
-PIPES = {"centroid": pipe}
+G15 = 1 << 15
+
+
+def big_cases(seed, n):
+    """Polygons with integer vertices on a grid of 2^15 (slivers: 2^20): thin slivers of tiny non-zero area (triangles and convex quads),
+    ordinary triangles / convex polygons, a shell with a hole, two members; every ring in a random direction and from a
+    random start vertex. All intermediate values of a float64 evaluation are exact integers for such input."""
+    import math
+    import random
+    r = random.Random(seed)
+
+    def ring(vs):
+        vs = list(vs)
+        if r.randrange(2):
+            vs.reverse()
+        k = r.randrange(len(vs))
+        vs = vs[k:] + vs[:k]
+        return vs + [vs[0]]
+
+    def area2(vs):
+        return sum(vs[i - 1][0] * vs[i][1] - vs[i][0] * vs[i - 1][1] for i in range(len(vs)))
+
+    def convex(cx, cy, rad, m):
+        angs = sorted(r.uniform(0, 2 * math.pi) for _ in range(m))
+        vs = []
+        for a in angs:
+            p = [cx + int(rad * math.cos(a)), cy + int(rad * math.sin(a))]
+            if p not in vs:
+                vs.append(p)
+        return vs if len(vs) >= 3 and area2(vs) != 0 else None
+
+    out = []
+    fams = ["sliver3", "sliver3", "sliver4", "tri", "convex", "hole", "two"]
+    while len(out) < n:
+        fam = fams[len(out) % len(fams)]
+        # slivers live on a grid of 2^20: every triangle of the fan is thin, so its doubled area is a small integer and all
+        # products stay exact; the other families on 2^15
+        G = (1 << 20) if fam.startswith("sliver") else G15
+        ox, oy = r.randrange(-G // 4, G // 4), r.randrange(-G // 4, G // 4)
+        L = r.randrange(G // 4, G // 2)
+        if fam == "sliver3":                       # two far vertices one step apart: doubled area of a few units
+            h = r.randrange(-3, 4)
+            vs = [[ox, oy], [ox + L, oy + h + r.choice([1, 2])], [ox + L + r.choice([1, 2, 3]), oy + h + r.choice([1, 2])]]
+            if r.randrange(2):
+                vs = [[y, x] for x, y in vs]
+            polys = [[vs]]
+        elif fam == "sliver4":                     # a long parallelogram of height 1..2 along a slanted direction
+            dx, dy = L, r.randrange(-L // 3, L // 3)
+            e = r.choice([[0, 1], [1, 0], [1, 1], [0, 2]])
+            vs = [[ox, oy], [ox + dx, oy + dy], [ox + dx + e[0], oy + dy + e[1]], [ox + e[0], oy + e[1]]]
+            polys = [[vs]]
+        elif fam == "tri":
+            vs = [[r.randrange(-G15, G15), r.randrange(-G15, G15)] for _ in range(3)]
+            polys = [[vs]]
+        elif fam == "convex":
+            vs = convex(ox, oy, L, r.choice([4, 5, 7, 12]))
+            polys = [[vs]] if vs else None
+        elif fam == "hole":
+            sh = convex(ox, oy, L, 8)
+            ho = convex(ox, oy, max(3, L // 16), 5)
+            polys = [[sh, ho]] if sh and ho and abs(area2(sh)) > 64 * abs(area2(ho)) and min(
+                (x - ox) ** 2 + (y - oy) ** 2 for x, y in sh) > (L // 4) ** 2 else None
+        else:
+            a = convex(ox - L, oy, L // 3, 5)
+            b = [[ox + L, oy], [ox + 2 * L, oy + r.choice([1, 2])], [ox + 2 * L + 1, oy + r.choice([1, 2, 3])]]
+            polys = [[a], [b]] if a else None
+        if not polys or any(area2(rg) == 0 for pg in polys for rg in pg) or max(abs(v) for pg in polys for rg in pg for q in rg for v in q) > G:
+            continue
+        out.append(dict(kind="poly", polys=[[ring(rg) for rg in pg] for pg in polys], off=[0, 0], fam=fam))
+    return out
+
+
+def big_pipe(ctx, verdict, cases, name="centroidx"):
+    """Numeric clause on large grids: Apalache decides CentroidBig!CentroidOK on exact integers for every entry point."""
+    import os
+    from props import exact_common as ec
+    from props import c18
+    obs = list(vlib.run_driver(ctx, "centroid", cases, for_tlc=False))
+    names = ["PolygonsCentroid", "MultiPolygonCentroid", "Centroid(MultiPolygon)", "Centroid(Polygon)"]
+    exprs, sigs, owners = [], [], []
+    for ci, (c, o) in enumerate(zip(cases, obs)):
+        rings = [rg for pg in c["polys"] for rg in pg]
+        shell = [j == 0 for pg in c["polys"] for j, _ in enumerate(pg)]
+        sc = max(1, max(abs(v) for rg in rings for q in rg for v in q))
+        rs = "<<" + ", ".join("<<" + ", ".join(ec.tla_pt(q) for q in rg) + ">>" for rg in rings) + ">>"
+        ix = "<<" + ", ".join("<<" + ", ".join(str(i) for i in range(2, len(rg) + 1)) + ">>" for rg in rings) + ">>"
+        sh = "<<" + ", ".join("TRUE" if b else "FALSE" for b in shell) + ">>"
+        ks = "<<" + ", ".join(str(i + 1) for i in range(len(rings))) + ">>"
+        conj = []
+        if o.get("ev", "ok") != "ok":
+            conj = ["FALSE"]
+        for ri, row in enumerate(o.get("res", [])):
+            if row["pan"] or row["x"]["t"] != "num" or row["y"]["t"] != "num":
+                conj.append("FALSE")
+                continue
+            ints, k = ec.scale_ints([ec.parse_exact(row["x"]["x"]), ec.parse_exact(row["y"]["x"])])
+            conj.append("CentroidOK(%s, %s, %s, %s, %s, %s, %d, %d)" % (rs, ix, sh, ks, ec.tla_int(ints[0]), ec.tla_int(ints[1]), 1 << k, sc))
+        exprs.append(" /\\ ".join(conj) if conj else "TRUE")
+        sigs.append("centroid|big|" + c["fam"] + "|outside-2^-30-of-scale")
+    spec = open(os.path.join(ctx.specdir, "CentroidBig.tla")).read()
+    return c18.apalache_decimal(ctx, verdict, exprs, cases, sigs, name, spec, per_module=10 if ctx.quick else 40, extends="CentroidBig", modprefix="CenObs")
+
+
+PIPES = {"centroid": pipe, "centroidx": big_pipe}
 
 
 def run(ctx, verdict):
@@ -20,6 +123,13 @@ def run(ctx, verdict):
     vlib.note_cases(ctx, cases)
     ctx.coverage_extra["model_a"] = [dict(cfg=cfg, cases=len(cases), states=r["distinct"])]
     pipe(ctx, verdict, cases)
+    big = big_cases(ctx.seed, 70 if ctx.quick else 1400)
+    vlib.note_cases(ctx, big)
+    big_pipe(ctx, verdict, big)
+    ctx.coverage_extra["numeric_tier"] = dict(cases=len(big), grid=G15, checker="Apalache on CentroidBig!CentroidOK (exact integers)")
+    ctx.assumptions += ["large-grid tier: seeded polygons with integer vertices up to 2^15 (slivers of doubled area 1..50 with vertices up to 2^20, "
+                        "triangles, convex polygons, a hole, two members), area-weighted centroid of every entry point within "
+                        "2^-30 x scale of the exact rational centroid (Apalache)"]
     ctx.assumptions += ["polygons are assembled by the model from a catalogue of 5 simple shells (convex, concave, flat "
                         "top, unique top vertex) x both directions x every start vertex x subsets of 2 holes in both "
                         "directions x up to 2 members x offsets up to 1e5; validity (simple rings, holes strictly "
